@@ -909,7 +909,8 @@ Proof.
 Qed.
 
 (* ---------- the theorem in the vocabulary of the property ---------- *)
-Definition in_fragment (e : sx) : bool := match sden e with Some _ => true | None => false end.
+(* no capture group, no flag group, no \Q..\E, and inside the domain where the matcher model is Go's semantics *)
+Definition in_fragment (e : sx) : bool := match sden e with Some x => loops_ok x | None => false end.
 Definition avoids_defects (e : sx) : bool := guards e.
 
 Theorem simplify_sound_fragment e :
